@@ -244,7 +244,18 @@ class Lock:
     def __exit__(self, *a):
         fcntl.flock(self.f, fcntl.LOCK_UN); self.f.close()
 
+def write_coqproject():
+    """_CoqProject is generated from the directory listing (Lib Gen Model Proofs Props), never edited by hand"""
+    files = []
+    for d in ("Lib", "Gen", "Model", "Proofs", "Props"):
+        files += sorted(os.path.relpath(f, COQ) for f in glob.glob(os.path.join(COQ, d, "*.v")))
+    text = "-Q . Verif\n-arg -w -arg -notation-overridden,-deprecated-hint-without-locality,-deprecated-instance-without-locality\n" + "\n".join(files) + "\n"
+    cp = os.path.join(COQ, "_CoqProject")
+    if not os.path.exists(cp) or open(cp).read() != text:
+        with open(cp, "w") as f: f.write(text)
+
 def ensure_makefile():
+    write_coqproject()
     mk = os.path.join(COQ, "Makefile"); cp = os.path.join(COQ, "_CoqProject")
     if not os.path.exists(mk) or os.path.getmtime(mk) < os.path.getmtime(cp):
         rc, out = run(["coq_makefile", "-f", "_CoqProject", "-o", "Makefile"], 60, cwd=COQ)
@@ -365,9 +376,10 @@ class Property:
 
 
 def load_known_findings():
-    p = os.path.join(VERIF, "known_findings.json")
-    if not os.path.exists(p): return []
-    return json.load(open(p)).get("findings", [])
+    out = []
+    for p in [os.path.join(VERIF, "known_findings.json")] + sorted(glob.glob(os.path.join(VERIF, "known_findings.d", "*.json"))):
+        if os.path.exists(p): out += json.load(open(p)).get("findings", [])
+    return out
 
 def corpus_cases(pid):
     out = []
